@@ -672,6 +672,10 @@ func (e *Engine) run(fn *ssa.Function, entry *State, args []AbsVal) []exitState 
 					continue
 				}
 				for v, avP := range ns.vals {
+					if (avP.k == vErrAt || avP.k == vRuneLen) && avP.idx == ssa.Value(q) {
+						delete(ns.vals, v)
+						continue
+					}
 					if avP.k == vByte && avP.idx == ssa.Value(q) {
 						if _, isPhiOfTo := v.(*ssa.Phi); isPhiOfTo && v.(*ssa.Phi).Block() == to {
 							continue // just assigned above with the renamed index
@@ -1087,6 +1091,9 @@ func (e *Engine) execBlock(fi *fnInfo, b *ssa.BasicBlock, start int, st *State,
 				for i, r := range in.Results {
 					if b, ok := r.Type().Underlying().(*types.Basic); !ok || b.Kind() != types.Bool {
 						continue
+					}
+					if _, isParam := rv[i].idx.(*ssa.Parameter); isParam && rv[i].k == vErrAt {
+						continue // the end-of-input test at an index parameter: decided in the caller, where the index lives
 					}
 					switch rv[i].k {
 					case vCmp, vTable, vErrAt, kHeapRef:
@@ -1821,6 +1828,21 @@ func (e *Engine) binop(st *State, x *ssa.BinOp) AbsVal {
 			if b.k == vIdx && oka && ca >= -16 && ca <= 16 {
 				at, known := st.byteReadAt(x.Y)
 				return shiftIdx(b, int(ca), at, known)
+			}
+			// n + k with k the length of the rune at index n (PeekRune(n)): still within the input
+			if a.k == vRuneLen && b.k == vIdx {
+				a, b = b, a
+				x = &ssa.BinOp{X: x.Y, Y: x.X, Op: x.Op}
+			}
+			if a.k == vIdx && b.k == vRuneLen && b.idx != nil && b.idx == x.X {
+				out := AbsVal{k: vIdx, ilo: a.ilo + 1, ihi: a.ihi, safe: -inf, back: a.back && a.ilo >= 0}
+				if out.ihi < inf {
+					out.ihi += 4
+				}
+				if b.runeOK {
+					out.safe = 0
+				}
+				return out
 			}
 		case token.SUB:
 			if oka && okb {
